@@ -465,6 +465,38 @@ def stalled_peer_case(res, rng, size, t8, stall, bound=40.0):
     srv.close()
 
 
+def send_message_once_case(res, rng):
+    """A write that fails after part of the frame was accepted, while the next write would succeed (scripted socket: accept k, error,
+    then accept everything).  Either `send_message` reports failure, or — if it reports success — the peer has received exactly the bytes of
+    the message once: never a torn frame followed by the whole frame with success reported."""
+    for k in (0, 5, 13):
+        s = TcpSettings(connect_mode=secsgem.hsms.HsmsConnectMode.PASSIVE)
+        p = secsgem.hsms.HsmsProtocol(s)
+        conn = p._connection
+        toks = (["a%d" % k] if k else []) + ["e"] + ["a100000"] * 6
+        conn._sock = FakeSock(toks)
+        p._thread.start()                      # receiver + dispatcher threads only: nothing else writes to the scripted socket
+        msg = secsgem.hsms.HsmsMessage(secsgem.hsms.HsmsStreamFunctionHeader(rng.range(1, 2**32 - 1), 1, 13, True, 0), rng.bytes(20))
+        frame = msg.blocks[0].encode()
+        out, done = [], threading.Event()
+        threading.Thread(target=lambda: (out.append(p.send_message(msg)), done.set()), daemon=True).start()
+        finished = done.wait(5)
+        wire = bytes(conn._sock.got)
+        case = {"kind": "send-message-once", "oracle": toks[:4], "frame": frame.hex()}
+        res.count(("send-message-once", k), sample={"op": "send_message, first write fails after k bytes, next would succeed", "k": k, "result": out[:1], "wire_len": len(wire)} if k == 5 else None)
+        res.bump("send_message_once", f"k={k} result={out[:1]}")
+        if not finished:
+            res.violate("send-message-hang", "send_message did not return within 5 s on a scripted socket that answers every call", case, None, out)
+        elif out[0] is True and wire != frame:
+            res.violate("send-message-torn-frame", "send_message returned True, but the bytes on the wire are not exactly the message once "
+                        "(a torn frame precedes / duplicates it)", case, frame.hex(), wire.hex())
+        elif out[0] is False and not frame.startswith(wire):
+            res.violate("send-message-torn-frame", "send_message returned False, but more than a prefix of the message is on the wire", case,
+                        frame.hex(), wire.hex())
+        p._thread._stop_receiver_thread = True
+        p._thread.trigger_receiver()
+
+
 def send_message_truthful_case(res):
     """`Protocol.send_message` may say True only for blocks that were sent: a send that is still in progress after T3 (1 s here) and then
     fails must not have been reported as successful in the meantime."""
@@ -542,6 +574,7 @@ def main():
             replay_cases(res, recorded)
         M.guarded(res, "fake", lambda: fake_part(res, rng.fork("fake"), drv, big))
         M.guarded(res, "queue", lambda: queue_part(res, rng.fork("queue"), drv, big))
+        M.guarded(res, "send once", lambda: send_message_once_case(res, rng.fork("once")))
     finally:
         tcp_mod.select = REAL_SELECT_MODULE
     M.guarded(res, "send_message", lambda: send_message_truthful_case(res))
